@@ -311,6 +311,24 @@ TypeCases ==
                         attrs |-> <<>>] >>),
                       Xsd("v1.xsd", "Uv1", << <<"x", "Uv1">> >>, << Cx("OtherType", None, << El("otherValue", B("string"), 1, "1") >>, <<>>) >>),
                       Xsd("v2.xsd", "Uv2", << <<"x", "Uv2">> >>, << Cx("FarType", None, << El("farValue", B("string"), 1, "1") >>, <<>>) >>) >>,
+   \* element forms: main.xsd leaves elementFormDefault at XSD's default (unqualified) and overrides it on one element;
+   \* it extends a type of a qualified file and is used by none; form.xsd is qualified and overrides one element the other way
+   unqualified_form |-> << Xsd("main.xsd", "Unear", NearX,
+                    << Imp("Ufar", "form.xsd"),
+                       Cx("OtherType", None, << El("otherValue", B("string"), 1, "1") >>, <<>>),
+                       ElemI("GlobalThing", << El("thingValue", B("int"), 1, "1") >>),
+                       Cx("FocusType", None,
+                          << El("subjectMember", T("t", "OtherType"), 1, "1"),
+                             [k |-> "el", n |-> "innerMember", ty |-> B("string"), min |-> 0, max |-> "1", form |-> "qualified"],
+                             Ref("t", "GlobalThing", 0, "1"),
+                             El("tailMember", B("boolean"), 1, "unb") >>,
+                          << At("keyAttr", B("string"), "req") >>),
+                       Cx("LeafType", T("o", "BaseType"), << El("leafItem", B("string"), 1, "1"), El("farValue", T("o", "FarType"), 0, "1") >>, <<>>) >>)
+                      @@ [unqualified |-> TRUE],
+                      Xsd("form.xsd", "Ufar", << <<"o", "Ufar">> >>,
+                    << Cx("BaseType", None, << El("baseItem", B("string"), 1, "1"),
+                                               [k |-> "el", n |-> "baseCount", ty |-> B("int"), min |-> 0, max |-> "1", form |-> "unqualified"] >>, <<>>),
+                       Cx("FarType", None, << El("farValue", B("string"), 1, "1") >>, <<>>) >>) >>,
    \* XML scoping of prefixes: a component of an imported file and a component of the importer declare the SAME prefix
    \* for different namespaces, each on the component itself
    prefix_scoped |-> << Xsd("main.xsd", "Unear", << <<"t", "Unear">> >>,
@@ -329,7 +347,7 @@ TypeCases ==
                     << Cx("kw_self", None, << El("kw_type", B("string"), 1, "1"), El("kw_match", B("int"), 0, "1"), El("kw_async", B("string"), 0, "unb"),
                                               El("kw_crate", B("boolean"), 1, "1") >>,
                           << At("kw_self", B("string"), "opt") >>) >>) >>]
-TypeLabels == IF Tier = "quick" THEN {"builtins_req", "builtins_vec", "text_builtins", "positions", "extension_near", "extension_far", "extension_far_user", "two_foreign", "deep_shared", "homonym_default", "prefix_scoped", "simple_restricted", "keywords", "three_ns", "sibling_collide"}
+TypeLabels == IF Tier = "quick" THEN {"builtins_req", "builtins_vec", "text_builtins", "positions", "extension_near", "extension_far", "extension_far_user", "two_foreign", "deep_shared", "homonym_default", "prefix_scoped", "unqualified_form", "simple_restricted", "keywords", "three_ns", "sibling_collide"}
               ELSE DOMAIN TypeCases
 
 \* ---- WSDL shapes
